@@ -227,7 +227,7 @@ func trimStack(st string) string {
 
 // togglableYieldSites may be switched off per run ("buggify"): they do not
 // guard a draw from the global math/rand stream, so replay stays exact.
-var togglableYieldSites = []string{"acktimeout", "suspect", "susptimeout", "dead", "leave1", "leave2", "update", "shutdown1", "shutdown2", "decryptkey", "evcb"}
+var togglableYieldSites = []string{"acktimeout", "suspect", "susptimeout", "susptimeout2", "conn", "dead", "leave1", "leave2", "update", "shutdown1", "shutdown2", "decryptkey", "evcb"}
 
 func genYieldOff(r *rng) []string {
 	if r.chance(0.5) {
@@ -242,7 +242,7 @@ func genYieldOff(r *rng) []string {
 	return off
 }
 
-var allYieldSites = []string{"handoff", "trigger", "pptrigger", "probe", "indirect", "gossip", "pushpull", "acktimeout", "alive", "suspect", "susptimeout", "dead", "leave1", "leave2", "update", "shutdown1", "shutdown2", "decryptkey", "write", "dial", "evcb"}
+var allYieldSites = []string{"conn", "susptimeout2", "handoff", "trigger", "pptrigger", "probe", "indirect", "gossip", "pushpull", "acktimeout", "alive", "suspect", "susptimeout", "dead", "leave1", "leave2", "update", "shutdown1", "shutdown2", "decryptkey", "write", "dial", "evcb"}
 
 // ---------------------------------------------------------------- shrinking
 
